@@ -201,6 +201,94 @@ func extractSites(e *extractor) {
 			}
 		}
 	}
+	// reads of an inheritable setting (a field of config.Common) that do not go through the method's record: outside
+	// package config the value in effect for a method is Method.Common; Converter.Common is only copied as a whole
+	// (the settings of generated sub-methods)
+	isCommon := func(t types.Type) bool {
+		if p, ok := t.(*types.Pointer); ok {
+			t = p.Elem()
+		}
+		n, ok := t.(*types.Named)
+		return ok && n.Obj().Name() == "Common" && n.Obj().Pkg() != nil && strings.HasSuffix(n.Obj().Pkg().Path(), "/config")
+	}
+	isMethodRec := func(t types.Type) bool {
+		if p, ok := t.(*types.Pointer); ok {
+			t = p.Elem()
+		}
+		n, ok := t.(*types.Named)
+		return ok && n.Obj().Name() == "Method" && n.Obj().Pkg() != nil && strings.HasSuffix(n.Obj().Pkg().Path(), "/config")
+	}
+	// throughCommon: the selection passes through an embedded config.Common before its last hop (or, with last, ends there)
+	throughCommon := func(sel *types.Selection, last bool) bool {
+		t := sel.Recv()
+		idx := sel.Index()
+		for k, i := range idx {
+			if p, ok := t.Underlying().(*types.Pointer); ok {
+				t = p.Elem()
+			}
+			st, ok := t.Underlying().(*types.Struct)
+			if !ok || i >= st.NumFields() {
+				return false
+			}
+			f := st.Field(i)
+			if isCommon(f.Type()) && f.Embedded() {
+				if k < len(idx)-1 && !last {
+					return true
+				}
+				if k == len(idx)-1 && last {
+					return true
+				}
+			}
+			t = f.Type()
+		}
+		return false
+	}
+	var rrows []string
+	for _, p := range pkgs {
+		if strings.HasSuffix(p.PkgPath, "/config") {
+			continue
+		}
+		for _, f := range p.Syntax {
+			fname := p.Fset.Position(f.Pos()).Filename
+			if strings.HasSuffix(fname, "_test.go") {
+				continue
+			}
+			rel := strings.TrimPrefix(strings.TrimPrefix(fname, e.repo), "/")
+			for _, d := range f.Decls {
+				fd, ok := d.(*ast.FuncDecl)
+				if !ok || fd.Body == nil {
+					continue
+				}
+				ast.Inspect(fd.Body, func(n ast.Node) bool {
+					se, ok := n.(*ast.SelectorExpr)
+					if !ok {
+						return true
+					}
+					sel := p.TypesInfo.Selections[se]
+					if sel == nil || sel.Kind() != types.FieldVal {
+						return true
+					}
+					bad := false
+					if !isMethodRec(sel.Recv()) && !isCommon(sel.Recv()) && throughCommon(sel, false) {
+						bad = true // conv.F with F promoted from Common
+					}
+					if isCommon(sel.Recv()) {
+						if inner, ok := se.X.(*ast.SelectorExpr); ok {
+							if is := p.TypesInfo.Selections[inner]; is != nil && !isMethodRec(is.Recv()) && throughCommon(is, true) {
+								bad = true // conv.Common.F
+							}
+						}
+					}
+					if bad {
+						rrows = append(rrows, fmt.Sprintf(" (%s, %s) (* %s reads %s from a record that is not the method's *)", runes(rel+":"+fd.Name.Name), runes(se.Sel.Name), rel+":"+fd.Name.Name, se.Sel.Name))
+					}
+					return true
+				})
+			}
+		}
+	}
+	sort.Strings(rrows)
+	fmt.Fprintf(&e.out, "(* reads of config.Common fields outside package config that bypass the method's record: (function, field) *)\nDefinition x_converter_level_reads : list (rstr * rstr) := [\n%s\n].\n", strings.Join(rrows, ";\n"))
 	sort.Strings(crows)
 	fmt.Fprintf(&e.out, "(* calls of the class-4 collectors declared as methods: (collector, caller, result sorted by the caller) *)\nDefinition x_collector_callers : list (rstr * rstr * bool) := [\n%s\n].\n", strings.Join(crows, ";\n"))
 	sort.Slice(srows, func(i, j int) bool { return srows[i].key < srows[j].key })
